@@ -26,11 +26,11 @@ Definition alphabet08 : list ev :=
 Definition alphabet14 : list ev :=
   [EChunk WOut; EChunk WErr; EEof WOut; EEof WErr; EExit 0; EExit 3; ETimer].
 
-(** C08: outside the four catalogued defect regions the model meets the spec *)
+(** C08: outside the three catalogued defect regions the model meets the spec
+    (F-C08c, the stdin-worker death, is fixed and no longer excluded) *)
 Definition guard08 (c : cfg) (script : list ev) : bool :=
   (* F-C08a *) negb (c_start_fail c && c_pty c) &&
   (* F-C08b *) negb (c_pty c && existsb (fun e => match e with EExitKbd _ => true | _ => false end) script) &&
-  (* F-C08c *) match C08Spec.death_while_running c script with Some (WIn, _) => false | _ => true end &&
   (* F-C08d *) match C08Spec.death_while_running c script with
                | Some _ => negb (C08Spec.process_ends c script && C08Spec.fair c)
                | None => true
